@@ -48,6 +48,28 @@ def main(tier):
         chk.violation("automatic tag names collide: first segments %r and %r both give %r" % (pair or ("?", "?", "?")),
                       {"kind": "tagname", "pair": pair, "signature": sig}, sig)
     chk.nontrivial.update("seg:" + s for s in segs[:2000])
+    # "interactions with the same first segment share that tag": whatever follows the first segment - more segments,
+    # '..', '.', doubled or trailing slashes - the tag is the tag of that segment (two real outputs compared)
+    firsts = [s for s in textfn.all_strings(SEG_ALPHA, 2) if s and "/" not in s and s not in (".", "..")]
+    tails = ["", "/", "/rest", "/..", "/../other", "/./x", "//x", "/x/../..", "/{id}", "/x/"]
+    touts = textfn.text_rows("pathtag", ["/" + f + t for f in firsts for t in tails])
+    k = 0
+    for f in firsts:
+        base = None
+        for t in tails:
+            o = touts[k]
+            k += 1
+            chk.evaluations += 1
+            if o.get("panic"):
+                continue
+            got = textfn.unb64(o["out"]).decode("utf-8", "surrogateescape")
+            if base is None:
+                base = got
+            elif got != base:
+                sig = {"level": "function", "what": "same first segment, different tag"}
+                chk.violation("the automatic tag of /%s%s is %r, of /%s it is %r: same first segment, different tags" % (f, t, got, f, base),
+                              {"kind": "tagtail", "first": f, "tail": t, "signature": sig}, sig)
+                break
     # (2) precedence end to end
     feats = '{"tag","url","method","rpc","tags","type"}'
     docs = []
@@ -220,6 +242,11 @@ def replay(path):
         pathspec.replay(chk, "C19", rp)
         return chk.finish()
     chk.evaluations = 1
+    if rp["kind"] == "tagtail":
+        oo = textfn.text_rows("pathtag", ["/" + rp["first"], "/" + rp["first"] + rp["tail"]])
+        if oo[0]["out"] != oo[1]["out"]:
+            chk.violation("reproduced: tags differ", rp, rp.get("signature"))
+        return chk.finish()
     if rp["kind"] == "tagname" and rp.get("pair"):
         a, b, _ = rp["pair"]
         o = textfn.text_rows("pathtag", ["/" + a, "/" + b])
